@@ -3,6 +3,7 @@
 use crate::engine::*;
 use crate::net::{self, st, Rec};
 use crate::vensure;
+use des::net::module::Stereotyp;
 use des::net::processing::{ProcessingElement, ProcessingStack};
 use des::prelude::*;
 use des::time::sleep_until;
@@ -50,6 +51,11 @@ pub struct ModSpec {
     /// many of them share an arrival time, and the times are not emitted in ascending order
     #[serde(default)]
     pub handler_burst: u8,
+    /// the handler panics in its (n % 3 + 1)-th call, the module's stereotype declares panics as caught: the event's
+    /// brackets are closed all the same, afterwards the module receives nothing but tear-down (only honoured for
+    /// modules without a restart request)
+    #[serde(default)]
+    pub panic_on: Option<u8>,
 }
 
 #[derive(Clone, Debug, Serialize, Deserialize)]
@@ -120,6 +126,21 @@ struct M {
     restarted: bool,
     own_as_block: bool,
     handler_burst: u8,
+    panic_on: Option<usize>,
+}
+
+fn panic_of(m: &ModSpec, global: &[Elem]) -> Option<usize> {
+    // no sending element in the module's stack: whether something sent during the event that deactivates its sender
+    // still leaves the module is C09/C13 territory
+    if global.iter().chain(m.own.iter()).any(|e| matches!(e, Elem::AlsoSend | Elem::SendOnEnd)) {
+        return None;
+    }
+    match m.panic_on {
+        // no timer task either: a task of a module that was deactivated by a panic may resume during tear-down
+        // (known finding of C13), which is not this property's subject
+        Some(n) if restart_of(m).is_none() && !m.pending_join && m.wakes.is_empty() => Some(n as usize % 3 + 1),
+        _ => None,
+    }
 }
 
 const BURST_DELAYS_MS: [u64; 3] = [2, 0, 1];
@@ -169,6 +190,9 @@ impl Module for M {
     fn handle_message(&mut self, msg: Message) {
         let id = msg.header().id;
         net::log("h-msg", id as i64, 0);
+        if self.panic_on == Some(self.seen + 1) {
+            panic!("injected fault in handle_message");
+        }
         if self.handler_sends {
             net::log("send", id as i64 + 3000, 0);
             send(Message::default().id(id + 3000), "out");
@@ -212,10 +236,10 @@ fn rec(path: &str, kind: &str, a: i64, b: i64, now: u128) -> Rec {
     }
 }
 
-/// The burst is only emitted by modules that never shut down: a delayed message whose departure falls into the
+/// The burst is only emitted by modules that never shut down and are never deactivated by a panic: a delayed message whose departure falls into the
 /// downtime of its sender is dropped (C09), which this check does not model.
-fn burst_of(m: &ModSpec) -> u8 {
-    if restart_of(m).is_some() {
+fn burst_of(m: &ModSpec, global: &[Elem]) -> u8 {
+    if restart_of(m).is_some() || panic_of(m, global).is_some() {
         0
     } else {
         m.handler_burst % 48
@@ -269,7 +293,8 @@ pub fn run_case(case: &Case) -> Result<(bool, Vec<&'static str>), Failure> {
                 seen: 0,
                 restarted: false,
                 own_as_block: m.own_as_block,
-                handler_burst: burst_of(m),
+                handler_burst: burst_of(m, &case.global),
+                panic_on: panic_of(m, &case.global),
             },
         );
     }
@@ -279,6 +304,11 @@ pub fn run_case(case: &Case) -> Result<(bool, Vec<&'static str>), Failure> {
         sim.gate(name.as_str(), "out").connect(sink_in[i].clone(), None);
     }
     let targets: Vec<ModuleRef> = names.iter().map(|n| sim.get(&ObjectPath::from(n.as_str())).unwrap()).collect();
+    for (i, m) in mods.iter().enumerate() {
+        if panic_of(m, &case.global).is_some() {
+            targets[i].set_stereotyp(Stereotyp::SUBPROCESS);
+        }
+    }
     let mut rt = Builder::seeded(5).quiet().build(sim.freeze());
     for (i, m) in mods.iter().enumerate() {
         let mut used = std::collections::BTreeSet::new();
@@ -312,6 +342,9 @@ pub fn run_case(case: &Case) -> Result<(bool, Vec<&'static str>), Failure> {
     let mut want_sink: Vec<(u128, i64)> = Vec::new();
     let mut consumed_early = false;
     let mut wake_events = 0;
+    let seen = std::cell::RefCell::new(vec![0usize; mods.len()]);
+    // deactivated by a caught panic of its handler
+    let dead = std::cell::RefCell::new(vec![false; mods.len()]);
     let stack_of = |i: usize| -> Vec<Elem> { case.global.iter().cloned().chain(mods[i].own.iter().cloned()).collect() };
     let bracket = |i: usize, now: u128, msg: Option<u16>, handler: Option<(&str, i64)>, want: &mut Vec<Rec>, sink: &mut Vec<(u128, i64)>, consumed_early: &mut bool| {
         let stack = stack_of(i);
@@ -344,13 +377,18 @@ pub fn run_case(case: &Case) -> Result<(bool, Vec<&'static str>), Failure> {
         }
         let handled = matches!((msg, cur), (Some(_), Some(_)));
         match (msg, cur, handler) {
+            (Some(_), Some(id), _) if panic_of(mods[i], &case.global) == Some(seen.borrow()[i] + 1) => {
+                // the handler panics right after it was entered; the panic is caught
+                want.push(rec(p, "h-msg", id as i64, 0, now));
+                dead.borrow_mut()[i] = true;
+            }
             (Some(_), Some(id), _) => {
                 want.push(rec(p, "h-msg", id as i64, 0, now));
                 if mods[i].handler_sends {
                     want.push(rec(p, "send", id as i64 + 3000, 0, now));
                     sink.push((now, id as i64 + 3000));
                 }
-                for j in 0..burst_of(mods[i]) as i64 {
+                for j in 0..burst_of(mods[i], &case.global) as i64 {
                     want.push(rec(p, "send", 4000 + j, 0, now));
                     sink.push((now + BURST_DELAYS_MS[j as usize % 3] as u128 * 1_000_000, 4000 + j));
                 }
@@ -377,12 +415,12 @@ pub fn run_case(case: &Case) -> Result<(bool, Vec<&'static str>), Failure> {
     }
     let mut last = 0;
     // per module: messages that reached the handler, restart instant while the module is down, shut down once
-    let mut seen = vec![0usize; mods.len()];
     let mut down_until: Vec<Option<u128>> = vec![None; mods.len()];
     let mut was_down = vec![false; mods.len()];
     let mut stale_done = vec![false; mods.len()];
     let mut restart_stage_events = 0;
     let mut ignored_while_down = 0;
+    let mut ignored_after_panic = 0;
     // ranges of `want` that may be absent: the timer of the first incarnation's task that was pending at the shutdown is
     // still delivered to the restarted module as an empty (handler-less) event; whether such a stale wake-up is
     // delivered at all is not this property's business, but if it is, it has to be bracketed like any other event
@@ -413,17 +451,20 @@ pub fn run_case(case: &Case) -> Result<(bool, Vec<&'static str>), Failure> {
         last = *t;
         match msg {
             Some(_) if down_until[*i].is_some() => ignored_while_down += 1,
+            Some(_) if dead.borrow()[*i] => ignored_after_panic += 1,
             Some(id) => {
                 if bracket(*i, *t, Some(*id), None, &mut want, &mut want_sink, &mut consumed_early) {
-                    seen[*i] += 1;
+                    seen.borrow_mut()[*i] += 1;
+                    let seen_i = seen.borrow()[*i];
                     if let Some((n, delay)) = restart_of(mods[*i]) {
-                        if seen[*i] == n && !was_down[*i] {
+                        if seen_i == n && !was_down[*i] {
                             was_down[*i] = true;
                             down_until[*i] = Some(*t + delay);
                         }
                     }
                 }
             }
+            None if dead.borrow()[*i] => {}
             None => {
                 // a task exists only if stage 0 ran, and it ends with the first incarnation
                 if (mods[*i].stages % 3) as usize >= 1 && !was_down[*i] {
@@ -537,7 +578,11 @@ pub fn run_case(case: &Case) -> Result<(bool, Vec<&'static str>), Failure> {
     if was_down.iter().any(|d| *d) {
         labels.push("shutdown-and-restart");
     }
-    if mods.iter().any(|m| burst_of(m) > 20) && got.iter().any(|r| r.kind == "send" && r.a >= 4020) {
+    if dead.borrow().iter().any(|d| *d) {
+        labels.push("handler-panic-caught-by-the-stereotype");
+    }
+    let _ = ignored_after_panic;
+    if mods.iter().any(|m| burst_of(m, &case.global) > 20) && got.iter().any(|r| r.kind == "send" && r.a >= 4020) {
         labels.push("burst>20-with-ties-and-descending-times");
     }
     if mods.iter().any(|m| m.own_as_block && m.own.len() > g && g > 0) {
@@ -560,7 +605,7 @@ impl Prop for C14 {
         "proptest: a global stack of 0..4 elements and 0..4 per-module elements (Module::stack, appended one by one or as one block) for 1..2 target modules, element kinds pass / rewrite \
          id / consume-if(id % m == r) / also-send / send-on-event-end; events: start-up stages (0..2 per module), injected messages at distinct \
          instants, timer wake-ups of a task, a shutdown requested by the handler with a restart that replays the start-up stages (messages \
-         that arrive while the module is down are dropped without any hook call), tear-down (also ending in an error: at_sim_end returns Err, or a joined task is still pending); \
+         that arrive while the module is down are dropped without any hook call), a handler panic that the module's stereotype declares caught (brackets closed all the same, nothing but tear-down afterwards), tear-down (also ending in an error: at_sim_end returns Err, or a joined task is still pending); \
          handlers optionally forward to a sink, and (in modules that never shut down) emit bursts of up to 47 messages with delays 2,0,1,2,0,1,.. ms. Oracle: the complete hook/handler log of the target \
          modules must equal the log produced by an independent interpretation of the stack rules (event_start 0..n-1 each once, incoming in that \
          order until consumed, handler iff not consumed and with the rewritten id, event_end n-1..0 each once, module elements after the global \
@@ -600,8 +645,9 @@ impl Prop for C14 {
             proptest::option::weighted(0.35, (0u8..4, 0u8..6)),
             any::<bool>(),
             prop_oneof![3 => Just(0u8), 1 => 21u8..48, 1 => 1u8..21],
+            proptest::option::weighted(0.2, 0u8..3),
         )
-            .prop_map(|(own, stages, wakes, msgs, handler_sends, end_err, pending_join, restart, own_as_block, handler_burst)| ModSpec {
+            .prop_map(|(own, stages, wakes, msgs, handler_sends, end_err, pending_join, restart, own_as_block, handler_burst, panic_on)| ModSpec {
                 own,
                 stages,
                 wakes,
@@ -612,6 +658,7 @@ impl Prop for C14 {
                 restart,
                 own_as_block,
                 handler_burst,
+                panic_on,
             });
         (proptest::collection::vec(elem, 0..5), proptest::collection::vec(m, 1..3))
             .prop_map(|(global, mods)| Case { global, mods })
